@@ -77,6 +77,7 @@ GEN = {
 # C06 at the loop (see ALIAS): a running repeat, held keys and chords across tablet-mode changes
 GEN[("C06", "quick")] = [("basic", ["P:S"], 1, 2, 2, 0), ("shiftchord", ["P:LEFTSHIFT", "P:A", "R:LEFTSHIFT"], 3, 1, 0, 0), ("chord", ["P:LEFTCTRL", "P:K"], 2, 1, 1, 0)]
 GEN[("C06", "thorough")] = GEN[("C12", "thorough")]
+_C06_BURSTS = lambda: [("passthru", ["R:1"], 1, 0, 0, 0, SHIFT_BURST), ("passthru", ["R:1"], 1, 0, 0, 0, SEVENTEEN_TAP), ("basic", ["P:A", "R:A", "P:Z"], 3, 0, 0, 0)]
 # C01 at the loop (see ALIAS): many events per notification (a loop that stops reading early leaves the releases unread), tablet events and key events in one wake-up
 # (seventeen keys go down and up again in ONE arrival: whatever stops reading after 16 events has read only presses)
 SEVENTEEN_TAP = SEVENTEEN + ["R:" + k for k in _MANY[:17]]
@@ -107,6 +108,8 @@ GEN[("C07", "quick")] = [("norep", ["R:1"], 1, 0, 0, 0, SHIFT_BURST), ("norep", 
 GEN[("C07", "thorough")] = GEN[("C07", "quick")] + [("norep", ["P:LEFTSHIFT", "P:A", "R:A", "P:S"], 4, 0, 0, 1)]
 GEN[("C08", "quick")] = [("absorb", ["R:1"], 1, 0, 0, 0, SHIFT_BURST), ("absorb", ["P:C", "P:A", "P:B"], 3, 0, 0, 1)]
 GEN[("C08", "thorough")] = GEN[("C08", "quick")] + [("absorb", ["P:C", "P:A", "P:B", "R:C"], 4, 0, 0, 1)]
+GEN[("C06", "quick")] = GEN[("C06", "quick")] + _C06_BURSTS()
+GEN[("C06", "thorough")] = GEN[("C06", "thorough")] + _C06_BURSTS()
 GEN[("C19", "quick")] = GEN[("C02", "quick")]
 GEN[("C19", "thorough")] = GEN[("C02", "thorough")]
 # C14 at the loop (see ALIAS): boundary repeat timings with timer expiries
@@ -479,7 +482,9 @@ ALIAS = {"C03": DELIVERY, "C04": DELIVERY, "C05": DELIVERY, "C07": DELIVERY, "C0
          # C14 at the loop ("every layout that loading accepts can be ... driven with any sequence of key events without panicking"): the loop
          # that drives the mapper must not panic either, whatever the accepted layout's repeat timings are (zero, negative)
          "C14": {"C10-loop-panicked"},
-         "C06": {"C12-repeat-survives-tablet-switch", "C12-not-fresh-after-tablet-mode", "C12-not-released-at-tablet-on", "C12-chord-not-as-fresh-after-tablet-mode"},
+         # ... and its first sentence ("after all physical keys have been released nothing is held on the virtual keyboard") at the device, like C01
+         "C06": {"C12-repeat-survives-tablet-switch", "C12-not-fresh-after-tablet-mode", "C12-not-released-at-tablet-on", "C12-chord-not-as-fresh-after-tablet-mode",
+                 "C01-keys-held-while-waiting-although-every-key-was-released", "C10-poll-with-unread-events"},
          # C18 at the real driver ("for every batch of output events the bytes written are one record per event ... followed by exactly one
          # SYN_REPORT"): under the real driver every write is decoded and logged as one send, so a batch that is split, merged, truncated or
          # malformed on its way through RealDriver::send / DevInputWriter::send shows as a payload that is not the batch
